@@ -29,6 +29,9 @@ DEFAULT_ATM = [1.013e5, 20.]
 TABLEGENS = [' AIR', 'COM1', 'COM2', 'COM3', 'COM4', 'COM5', 'HEAT', 'MASS', 'NACL', 'TRAC', ' VOL']
 
 
+SCRATCH = ['/var/tmp']      # main() puts its own scratch directory here (inherited by the forked workers)
+
+
 class TaskTimeout(Exception):
     pass
 
@@ -640,7 +643,7 @@ def run_body(t, tmpdir, fails, counts, desc, stage):
 
 def run_task(t):
     fails, counts, desc = [], dict((c, 0) for c in CONTRACTS), []
-    tmpdir = tempfile.mkdtemp(prefix='pytough-', dir='/var/tmp')
+    tmpdir = tempfile.mkdtemp(prefix='task-', dir=SCRATCH[0])
     signal.signal(signal.SIGALRM, _alarm)
     signal.alarm(TASK_TIMEOUT)
     sample = None
@@ -660,6 +663,8 @@ def run_task(t):
 
 def main():
     t0 = time.time()
+    SCRATCH[0] = tempfile.mkdtemp(prefix='pytough-', dir='/var/tmp')
+    signal.signal(signal.SIGTERM, lambda *a: sys.exit(1))      # so that the scratch directory goes even when killed
     rnd = random.Random(seed)
     tasks = gen_tasks(rnd)
     failures, counts, distinct, samples = [], dict((c, 0) for c in CONTRACTS), set(), []
@@ -673,13 +678,14 @@ def main():
                 samples.append(sample)
     finally:
         pool.terminate(); pool.join()
+        shutil.rmtree(SCRATCH[0], ignore_errors=True)
     # one of each category first (smallest input), then the rest
     def size(f):
         return len(json.dumps(f['input']))
     groups = {}
     for f in sorted(failures, key=lambda f: (size(f), f['key'])):
         i = f['input']
-        groups.setdefault((f['key'].split(' ')[0], i.get('satm'), i.get('tatm'), i.get('kind')), []).append(f)
+        groups.setdefault((f['key'].split(' ')[0], i.get('satm'), i.get('tatm')), []).append(f)
     ordered, rank = [], 0
     while len(ordered) < len(failures):
         for k in sorted(groups, key=lambda k: tuple(str(x) for x in k)):
